@@ -13,3 +13,7 @@ func queryEncode(param string, m restlicodec.Marshaler) (string, error) {
 func queryReadRecord(q restlicodec.QueryParamsReader, required []string, f restlicodec.MapReader) error {
 	return q.ReadRecord(restlicodec.NewRequiredFields().Add(required...), f)
 }
+
+func readRec(r restlicodec.Reader, required []string, f restlicodec.MapReader) error {
+	return r.ReadRecord(restlicodec.NewRequiredFields().Add(required...), f)
+}
